@@ -94,6 +94,11 @@ class SymSgn:
     __slots__ = ('neg', 'bits', 'zero')
     def __init__(s, neg, bits, zero=None): s.neg = neg; s.bits = bits; s.zero = zero   # zero: z3 Bool 'value == 0' or None
 
+class FBits:
+    """the 64-bit pattern of a symbolic double (result of bitcast double -> i64); only sign-bit tests are supported"""
+    __slots__ = ('f',)
+    def __init__(s, f): s.f = f
+
 class Part:
     """one byte of a non-splittable value stored in memory"""
     __slots__ = ('val', 'idx', 'size')
@@ -629,6 +634,16 @@ class Machine:
         if x is UNDEF: raise Violation('uninit', 'floating-point use of uninitialised value')
         raise ExecError('asF %r' % (x,))
 
+    def signbit(s, f):
+        """sign bit of a symbolic double as SymB; a real term cannot distinguish +0.0 from -0.0, so a value that may be
+        zero is refused (harnesses supply the zero cases as concrete +0.0 / -0.0)"""
+        if f.lo > 0: return b_const(False)
+        if f.hi < 0: return b_const(True)
+        if f.err != 0 and not f.sx: raise ExecError('sign bit of an inexact symbolic double whose interval contains 0')
+        if s.check(f.t == 0): raise ExecError('sign bit of a symbolic double that can be zero (+0.0/-0.0 are indistinguishable in the real model)')
+        s.add_pc(f.t != 0)
+        return SymB(f.t < 0)
+
     def mk(s, t, lo, hi, ex, perr):
         """result of an IEEE operation whose exact-real value is term t (over operands' exact terms),
         [lo,hi] bounds the real result computed from the operands' IEEE values, perr bounds the error
@@ -1145,6 +1160,11 @@ def h_bin(s, fr, ins):
             ta = a.t if isinstance(a, SymI) else sgn(a, bits); tb = b.t if isinstance(b, SymI) else sgn(b, bits)
             zz = ta == tb
         fr.regs[ins.res] = SymSgn(r, bits, zz); fr.ii += 1; return
+    if op == 'xor' and isinstance(a, (FBits, int)) and isinstance(b, (FBits, int)) and (isinstance(a, FBits) or isinstance(b, FBits)):
+        def sb_(x): return s.signbit(x.f).t if isinstance(x, FBits) else z3.BoolVal(sgn(x, 64) < 0)
+        fr.regs[ins.res] = SymSgn(z3.Xor(sb_(a), sb_(b)), 64); fr.ii += 1; return
+    if op == 'lshr' and isinstance(a, FBits) and b == 63:
+        fr.regs[ins.res] = s.signbit(a.f); fr.ii += 1; return
     if op == 'lshr' and isinstance(a, (SymI, SymSgn)) and b == bits - 1:
         fr.regs[ins.res] = SymB(a.neg if isinstance(a, SymSgn) else a.t < 0); fr.ii += 1; return
     if isinstance(a, SymSgn) or isinstance(b, SymSgn): raise ExecError('unsupported use of a sign-only symbolic value in ' + op)
@@ -1226,6 +1246,12 @@ def h_icmp(s, fr, ins):
         elif pred in ('uge', 'sle'): r = b_or(X, b_not(Y))
         else: raise ExecError('icmp %s on bools' % pred)
         fr.regs[ins.res] = r; fr.ii += 1; return
+    if isinstance(a, FBits) and isinstance(b, int):
+        c = sgn(b, 64)
+        if (pred, c) in (('slt', 0), ('sle', -1)): neg = True
+        elif (pred, c) in (('sgt', -1), ('sge', 0)): neg = False
+        else: raise ExecError('unsupported comparison on the bit pattern of a symbolic double')
+        fr.regs[ins.res] = s.signbit(a.f) if neg else b_not(s.signbit(a.f)); fr.ii += 1; return
     if isinstance(a, SymSgn) or isinstance(b, SymSgn):
         bits = ins.oty.bits
         if isinstance(a, SymSgn) and isinstance(b, int):
@@ -1263,7 +1289,9 @@ def h_fcmp(s, fr, ins):
 def h_cast(s, fr, ins):
     a = s.opv(fr, ins.a); op = ins.cop; t = ins.ty; ft = ins.a.ty
     if op in ('bitcast', 'addrspacecast'):
-        if isinstance(t, (TInt, TFloat)) and not isinstance(a, (SymF, SymI, SymB)): r = s.reinterpret(a, t)
+        if isinstance(a, SymF) and isinstance(t, TInt): r = FBits(a)
+        elif isinstance(a, FBits) and isinstance(t, TFloat): r = a.f
+        elif isinstance(t, (TInt, TFloat)) and not isinstance(a, (SymF, SymI, SymB)): r = s.reinterpret(a, t)
         else: r = a
     elif op == 'ptrtoint': r = a
     elif op == 'inttoptr': r = a if isinstance(a, (Ptr, FnPtr)) else (NULL if a == 0 else Ptr(0, a))
@@ -1290,7 +1318,11 @@ def h_cast(s, fr, ins):
     elif op == 'sext':
         if isinstance(a, int): r = sgn(a, ft.bits) & ((1 << t.bits) - 1)
         elif isinstance(a, SymI): r = SymI(a.t, a.lo, a.hi, t.bits)
-        elif isinstance(a, SymB): raise ExecError('sext of symbolic bool')
+        elif isinstance(a, SymB):
+            if not a.exact(): r = ((1 << t.bits) - 1) if s.decide(a) else 0
+            else:
+                mk_ = z3.RealVal if s.opts.get('relax_int') else z3.IntVal
+                r = SymI(z3.If(a.t, mk_(-1), mk_(0)), -1, 0, t.bits)
         else: raise ExecError('sext %r' % (a,))
     elif op in ('sitofp', 'uitofp'):
         if isinstance(a, int):
@@ -1692,6 +1724,9 @@ EXTERNAL_PATTERNS = [
     (re.compile(r'^@(_ZNSt8ios_base4Init[CD]1Ev|_ZNSo.*|_ZSt16__ostream_insert.*|_ZNSt8ios_baseD2Ev|_ZNSt6locale[CD]1Ev|_ZNSt9basic_iosIcSt11char_traitsIcEE.*|printf|fprintf|puts|fflush)$'), x_noop),
     (re.compile(r'^@_ZSt\d+__throw_.*'), x_throw_std),
 ]
+import strmodels
+EXTERNAL_PATTERNS = strmodels.PATTERNS + EXTERNAL_PATTERNS
+Machine.ExecError = ExecError
 # defined functions whose bodies are replaced by stubs (formatting / logging is never the subject of a claim)
 OVERRIDE_PATTERNS = [
     # operator<<(std::ostream&, T const&) of the libraries' own types
